@@ -127,6 +127,16 @@ Word Granularity(Byte Header, Byte Segment) {
     }
 }
 
+/* a record header that ends prematurely is a format error, not a condition
+   the callers' record loops can recover from */
+
+static void ReadHeaderByte(Byte* pDest, char const* Name, FILE* f) {
+    if (fread(pDest, 1, 1, f) != 1) {
+        ChkIO(Name);
+        FormatError(Name, catgetmessage(&MsgCat, Num_FormatInvRecHeaderMsg));
+    }
+}
+
 void ReadRecordHeader(
         Byte* Header, Byte* CPU, Byte* Segment, Byte* Gran, char const* Name, FILE* f) {
 #ifdef _WIN32
@@ -141,20 +151,19 @@ void ReadRecordHeader(
     fseek(f, pos, SEEK_SET);
 #endif
 
-    if (fread(Header, 1, 1, f) != 1) {
-        ChkIO(Name);
-    }
+    ReadHeaderByte(Header, Name, f);
     if ((*Header != FileHeaderEnd) && (*Header != FileHeaderStartAdr)) {
         if ((*Header == FileHeaderDataRec) || (*Header == FileHeaderRDataRec)
             || (*Header == FileHeaderRelocRec) || (*Header == FileHeaderRRelocRec)) {
-            if (fread(CPU, 1, 1, f) != 1) {
-                ChkIO(Name);
-            }
-            if (fread(Segment, 1, 1, f) != 1) {
-                ChkIO(Name);
-            }
-            if (fread(Gran, 1, 1, f) != 1) {
-                ChkIO(Name);
+            ReadHeaderByte(CPU, Name, f);
+            ReadHeaderByte(Segment, Name, f);
+            ReadHeaderByte(Gran, Name, f);
+
+            /* the tools divide by the granularity and index their
+               per-segment tables with the segment */
+
+            if ((*Gran == 0) || (*Segment >= SegCount)) {
+                FormatError(Name, catgetmessage(&MsgCat, Num_FormatInvRecHeaderMsg));
             }
         } else if (*Header <= 0x7f) {
             *CPU     = *Header;
